@@ -19,7 +19,8 @@ RULE = ("A zoo transform (random permutations, random-mask MADE, couplings, 1x1 
         "built from the same constructor arguments under a different random seed. Oracle: forward, inverse, log_prob and "
         "transform_to_noise of the two models are bit-identical in evaluation mode (float32, one thread), and the same "
         "training-mode forward applied to copies of both gives bit-identical results (initialisation flags travel). "
-        "Non-trivial: the two fresh instances differ before loading. Distinct = distinct case JSON.")
+        "The receiving model may have been used before (evaluation mode, caches filled); constructors must leave a shared layer-size list "
+        "unchanged. Non-trivial: the two fresh instances differ before loading. Distinct = distinct case JSON.")
 ASSUMPTIONS = ["same process, one BLAS thread: identical values through identical operations are bit-identical (measured on the pinned tree)"]
 EXPLANATION = "generated"
 
